@@ -386,53 +386,19 @@ theorem tg_space_eq (g : Tg Int) (hnd : g.names.Nodup) (s d : Int) (m : SpaceMod
   | error e => rfl
   | ok ts => simp [Tg.ofSpan, Except.map]
 
-/-- interval tiers, ANY insertion time `s` (before the span, inside it, beyond its end) and `d > 0`: `insert_spec` of
-`C08` without its hypothesis `lo ≤ s` -/
+/-- interval tiers, ANY insertion time `s` (before the span, inside it, beyond its end) and `d > 0`: this is
+`C08.insert_spec`, which no longer carries the hypothesis `lo ≤ s` (name kept for the index) -/
 theorem insert_spec_any (t : ITier Int) (hwf : t.WF) (s d : Int) (hd : 0 < d) (mode : SpaceMode)
     (hm : mode = .error → ∀ iv ∈ t.es, ¬ C08.Straddles s iv) :
     ∃ t', t.insertSpace s d mode = .ok t' ∧ t'.WF ∧ t'.name = t.name ∧
-      t'.es = t.es.flatMap (C08.spaceP s d mode) ∧ t'.lo = t.lo ∧ t'.hi = t.hi + d := by
-  have hw := C08.flatMap_spaceP_wf s d hd mode t.es hwf.pos hwf.disj hwf.stripped
-  obtain ⟨t', e1, e2, e3, e4, e5, e6⟩ :=
-    mkITier_wf t.name _ t.lo (t.hi + d) (by have := hwf.span; omega) hw.1 hw.2.1 hw.2.2
-  have hb : ∀ x ∈ t.es.flatMap (C08.spaceP s d mode), t.lo ≤ x.s ∧ x.e ≤ t.hi + d := by
-    intro x hx
-    obtain ⟨iv, hiv, hxp⟩ := List.mem_flatMap.1 hx
-    have p := C08.spaceP_props s d hd mode iv x (hwf.pos iv hiv) hxp
-    have := hwf.inLo iv hiv
-    have := hwf.inHi iv hiv
-    omega
-  refine ⟨t', ?_, e2, e4, e3, ?_, ?_⟩
-  · unfold ITier.insertSpace
-    rw [C08.spaceAll_eq s d mode t.es hm]
-    simp only [ITier.new, Option.getD_some, Option.getD_none]
-    exact e1
-  · rw [e5]; apply hullMin_eq_of_le
-    intro x hx; obtain ⟨z, hz, rfl⟩ := List.mem_map.1 hx; exact (hb z hz).1
-  · rw [e6]; apply hullMax_eq_of_ge
-    intro x hx; obtain ⟨z, hz, rfl⟩ := List.mem_map.1 hx; exact (hb z hz).2
+      t'.es = t.es.flatMap (C08.spaceP s d mode) ∧ t'.lo = t.lo ∧ t'.hi = t.hi + d :=
+  C08.insert_spec t hwf s d hd mode hm
 
-/-- point tiers, ANY insertion time `s` -/
+/-- point tiers, ANY insertion time `s`: this is `C08.pinsert_spec` -/
 theorem pinsert_spec_any (t : PTier Int) (hwf : t.WF) (s d : Int) (hd : 0 < d) :
     ∃ t', t.insertSpace s d = .ok t' ∧ t'.WF ∧ t'.name = t.name ∧
-      t'.ps = t.ps.map (fun p => if p.t ≤ s then p else ⟨p.t + d, p.l⟩) ∧ t'.lo = t.lo ∧ t'.hi = t.hi + d := by
-  have hsorted : (t.ps.map (fun p => if p.t ≤ s then p else (⟨p.t + d, p.l⟩ : Pt Int))).Pairwise
-      (fun a b => Pt.le a b = true) := by
-    rw [List.pairwise_map]
-    refine hwf.sorted.imp ?_
-    intro a b hab
-    have := Pt.le_time hab
-    simp only [Pt.le] at hab ⊢
-    by_cases ha : a.t ≤ s <;> by_cases hb : b.t ≤ s <;> simp only [ha, hb, if_true, if_false] <;> grind
-  obtain ⟨t', e1, e2, e3, e4, e5, e6⟩ := mkPTier_wf t.name _ t.lo (t.hi + d) hsorted
-    (by intro p hp; obtain ⟨q, hq, rfl⟩ := List.mem_map.1 hp
-        have := hwf.stripped q hq; split <;> simpa using this)
-    (by intro p hp; obtain ⟨q, hq, rfl⟩ := List.mem_map.1 hp
-        have := hwf.inLo q hq; split <;> first | omega | (simp only; omega))
-    (by intro p hp; obtain ⟨q, hq, rfl⟩ := List.mem_map.1 hp
-        have := hwf.inHi q hq; split <;> first | omega | (simp only; omega))
-    (by have := hwf.span; omega)
-  exact ⟨t', by simpa [PTier.insertSpace, PTier.new] using e1, e2, e4, e3, e5, e6⟩
+      t'.ps = t.ps.map (fun p => if p.t ≤ s then p else ⟨p.t + d, p.l⟩) ∧ t'.lo = t.lo ∧ t'.hi = t.hi + d :=
+  C08.pinsert_spec t hwf s d hd
 
 /-- some interval of the tier has `s` strictly inside -/
 def HasStraddler (s : Int) : AnyTier Int → Prop
@@ -540,8 +506,7 @@ theorem tg_space_error_example :
   · rw [tg_space_err_iff C12.exG C12.exG_nodup C12.exG_wf 3 5 (by decide)]
     refine ⟨⟨rfl, .I C12.exWords, by simp [C12.exG], ⟨1, 4, "x"⟩, by simp [C12.exWords], ?_⟩, rfl⟩
     simp [C08.Straddles]
-  · obtain ⟨g', e, _⟩ := C12.insertSpace_validate_ok C12.exG C12.exG_wf C12.exG_valid 4 5 (by decide)
-      (fun lo hl => by cases hl; decide) .error (by
+  · obtain ⟨g', e, _⟩ := C12.insertSpace_validate_ok C12.exG C12.exG_wf C12.exG_valid 4 5 (by decide) .error (by
         intro _ t ht
         simp only [C12.exG, List.mem_cons, List.not_mem_nil, or_false] at ht
         rcases ht with rfl | rfl
